@@ -66,6 +66,11 @@ from .sequence import Sequence
 
 from .localciderExceptions import WLException
 
+# [verification hook, add-only] when the environment variable LOCALCIDER_VERIF is "1" and a list has been
+# installed here by a test harness, run_normal_WL appends one record per step / per flat check to it.
+_VERIF_ON = os.environ.get('LOCALCIDER_VERIF') == '1'
+_VERIF_TRACE = None
+
 
 class WangLandauMachine:
     """
@@ -650,6 +655,9 @@ class WangLandauMachine:
             # =============================================================================
             # ACCEPTANCE REGION
             # if we accept the move
+            if _VERIF_ON and _VERIF_TRACE is not None:
+                _vh = (nstep, oseq.seq, nseq.seq, int(idx_old), int(idx_new), bool(skip), float(acceptProb), float(f), int(niter))
+                _vacc = False
             if(rand.random() < acceptProb):
 
                 #
@@ -669,6 +677,8 @@ class WangLandauMachine:
 
                 # update the old sequence with the info from the new sequence
                 oseq = Sequence(nseq.seq, nseq.dmax, nseq.chargePattern)
+                if _VERIF_ON and _VERIF_TRACE is not None:
+                    _vacc = True
                 kold = oseq.kappa()
                 idx_old = np.argmin(abs(bincts - kold))
 
@@ -690,6 +700,8 @@ class WangLandauMachine:
                 H[idx_old] = H[idx_old] + 1
 
             # increment the number of steps taken
+            if _VERIF_ON and _VERIF_TRACE is not None:
+                _VERIF_TRACE.append(('step',) + _vh + (_vacc, oseq.seq, int(idx_old), float(g[idx_old]), int(H[idx_old])))
             nstep = nstep + 1
 
             # if we're at a flatcheck
@@ -945,6 +957,8 @@ class WangLandauMachine:
             if(f > self.convergence):
                 self.writeLog(hlog, "\niter %d:\n" % (niter + 1))
 
+        if _VERIF_ON and _VERIF_TRACE is not None:
+            _VERIF_TRACE.append(('flat', [int(x) for x in Hlocal], int(flatness_number), float(f), int(niter), [float(x) for x in g]))
         return(H, f, niter, 0)
 
     #...................................................................................#
